@@ -107,12 +107,12 @@ ASSUMPTIONS = [
     "a late PROGRESS=100, on a protocol nobody was waiting on - is 'the launch result': the same obligations "
     "apply to each (a TorProcessProtocol constructed directly, as the repo's tests and pre-launch() callers do, "
     "has no temporary directory and no launch() Deferred; only the when_connected() obligations are checked)",
-    "'the authenticated control connection, on which ownership is also requested' is, for a successful "
-    "launch(), the connection it hands out (public Tor.protocol): Tor must have accepted AUTHENTICATE on it and "
-    "TAKEOWNERSHIP must have been written on it before launch() fired; the PROGRESS=100 report itself may have "
-    "arrived on any authenticated connection of this launch on which TAKEOWNERSHIP had been written (with two live "
-    "connections Tor sends the event on both; which one txtorcon reacts to first is not constrained). For "
-    "when_connected() (resolves to the process protocol) only the second half is checked",
+    "'the authenticated control connection, on which ownership is also requested' is the connection over "
+    "which the PROGRESS=100 report that decided the result was delivered (the last one handed to a protocol "
+    "before the result first fired; Tor sends the event on every subscribed connection, in either order): Tor "
+    "must have accepted AUTHENTICATE on it and TAKEOWNERSHIP must have been written on it by then - 'requested', "
+    "so a rejection of the command does not matter. Which connection object launch() hands out (Tor.protocol) "
+    "is not something the statement speaks about: labelled, never judged",
     "a when_connected() obtained from inside another one's callback/errback is one more launch result with the "
     "same obligations (failure required once the process ended first); success is still never required",
     "the temp area may be reached through a symlink (TMPDIR=/link, /tmp -> /private/tmp): the temporary "
@@ -365,6 +365,7 @@ class _World(object):
         self.reactor = reactor if reactor is not None else FakeReactor()
         self.direct = bool(cfg.get("direct", False))
         self.shared_config = None   # a TorConfig the caller re-uses for several launches (driver "chain")
+        self.decided = None         # (tick of the first success, connection of the deciding PROGRESS=100)
         self.T = cfg.get("timeout")
         self.t0 = 0.0
         self.started = False
@@ -612,7 +613,8 @@ class _World(object):
                 p, tag, summ = PHASES[self.phase]
                 data = wire.crlf('650 STATUS_CLIENT NOTICE BOOTSTRAP PROGRESS=%d TAG=%s SUMMARY="%s"' % (
                     p, tag, summ))
-                for c in self.conns:
+                # Tor sends an event on every subscribed connection; in which order is its business
+                for c in (reversed(self.conns) if self.cfg.get("emit_reverse") else self.conns):
                     if c.live and c.subscribed:
                         c.emit(data, is100=(p == 100))
                         done = True
@@ -777,29 +779,46 @@ def drive_launch(case):
     return res
 
 
+def _deciding(w):
+    """(tick of the first success of any result of this launch, the connection over which the PROGRESS=100
+    report that decided it was delivered).  The success fires synchronously while that report is being
+    processed, so the deciding report is the last PROGRESS=100 handed to a protocol before that instant; Tor
+    sends the event on every subscribed connection, later copies do not decide anything."""
+    if w.decided is None:
+        oks = [f[0] for o in w.observers for f in o.fires[:1] if f[1] == "ok"]
+        if not oks:
+            return None, None
+        t0 = min(oks)
+        best = None
+        for c in w.conns:
+            ev = [t for t in c.ev100_ticks if t < t0]
+            if ev and (best is None or max(ev) > best[0]):
+                best = (max(ev), c)
+        w.decided = (t0, best[1] if best else None)
+    return w.decided
+
+
 def _justified(w, tick):
-    """Is a success at logical time `tick` preceded by PROGRESS=100 on an authenticated connection on
-    which TAKEOWNERSHIP had been written?  Returns (bool, explanation)."""
-    why = []
-    for c in w.conns:
-        ev = [t for t in c.ev100_ticks if t < tick]
-        if not ev:
-            why.append("conn %d: no PROGRESS=100 delivered before" % c.idx)
-            continue
-        if not c.authenticated():
-            why.append("conn %d: not authenticated" % c.idx)
-            continue
-        if c.take_tick is None or c.take_tick > tick:
-            why.append("conn %d: TAKEOWNERSHIP not written before (written at %r, success at %r)" % (
-                c.idx, c.take_tick, tick))
-            continue
-        return True, ""
-    return False, "; ".join(why) or "no control connection at all"
+    """Was the success preceded by Tor's PROGRESS=100 report over a connection that Tor had authenticated and
+    on which TAKEOWNERSHIP had been written (requested; its rejection does not matter) before the launch
+    result first fired?  Returns (bool, explanation, tag)."""
+    t0, c = _deciding(w)
+    if c is None:
+        return False, "no PROGRESS=100 had been delivered on any control connection", "success-before-bootstrap-100"
+    if not c.authenticated():
+        return False, "the PROGRESS=100 report came over connection %d, which Tor never authenticated" % c.idx, \
+            "success-on-unauthenticated-connection"
+    if c.take_tick is None or c.take_tick > t0:
+        return False, ("the deciding PROGRESS=100 report came over connection %d of %d, on which TAKEOWNERSHIP "
+                       "had not been written (written at %r, first success at %r; commands it saw: %r); "
+                       "others: %s" % (c.idx, len(w.conns), c.take_tick, t0, c.pipe.commands[-5:],
+                                       ["#%d TAKEOWNERSHIP %s" % (o.idx, "written" if o.take_tick else "not written")
+                                        for o in w.conns if o is not c])), "success-without-takeownership"
+    return True, "", ""
 
 
-def _check_handed_out(w, res, obs, tk, tor, i, a):
-    """launch() succeeded with a Tor object: the control connection it hands out (public Tor.protocol) is
-    'the authenticated control connection, on which ownership of the process is also requested'."""
+def _note_handed_out(w, tor):
+    """What launch() hands out (public Tor.protocol) is not something the statement speaks about: labels only."""
     try:
         proto = tor.protocol
     except Exception:
@@ -812,17 +831,12 @@ def _check_handed_out(w, res, obs, tk, tor, i, a):
     c = mine[0]
     if len(w.conns) > 1:
         w.labels.add("handed-out-connection-%s-of-several" % ("first" if c.idx == 0 else "later"))
+    if c is not _deciding(w)[1]:
+        w.labels.add("handed-out-connection-is-not-the-reporting-one")
     if not c.authenticated():
-        res.bad("handed-out-connection-not-authenticated",
-                "%s succeeded at action %d %r handing out control connection %d of %d, which Tor never "
-                "authenticated" % (obs.name, i, a, c.idx, len(w.conns)))
-    elif c.take_tick is None or c.take_tick > tk:
-        res.bad("handed-out-connection-without-takeownership",
-                "%s succeeded at action %d %r handing out control connection %d of %d; TAKEOWNERSHIP was "
-                "never written on that connection (commands it saw: %r); other connections: %s" % (
-                    obs.name, i, a, c.idx, len(w.conns), c.pipe.commands[-6:],
-                    ["#%d TAKEOWNERSHIP %s" % (o.idx, "written" if o.take_tick else "not written")
-                     for o in w.conns if o is not c]))
+        w.labels.add("handed-out-connection-not-authenticated")
+    elif c.take_tick is None:
+        w.labels.add("handed-out-connection-without-takeownership")
 
 
 def _scan_log(worlds, res, logs, state, i, a):
@@ -850,23 +864,16 @@ def _step_checks(w, res, i, a, own_action=True):
             obs.judged = True
             tk, kind, val = obs.fires[0]
             if kind == "ok":
-                ok, why = _justified(w, tk)
+                ok, why, tag = _justified(w, tk)
                 if not ok:
-                    with100 = [c for c in w.conns if [t for t in c.ev100_ticks if t < tk]]
-                    if obs.asked_act >= 0 and obs.asked_act == i and own_action:
+                    if obs.asked_act >= 0 and obs.asked_act == i and own_action and tag == "success-before-bootstrap-100":
                         # asked now and answered at once: the remembered outcome is wrong
                         tag = "late-when-connected-succeeds-without-bootstrap"
-                    elif not with100:
-                        tag = "success-before-bootstrap-100"
-                    elif not [c for c in with100 if c.authenticated()]:
-                        tag = "success-on-unauthenticated-connection"
-                    else:
-                        tag = "success-without-takeownership"
                     res.bad(tag, "%s succeeded at action %d %r: %s (other results: %s)" % (
                         obs.name, i, a, why, ", ".join("%s=%s" % (o.name, o.describe())
                                                        for o in w.observers if o is not obs)))
                 elif obs is w.L:
-                    _check_handed_out(w, res, obs, tk, val, i, a)
+                    _note_handed_out(w, val)
         if len(obs.fires) > 1:
             res.bad("result-fired-twice", "%s fired %d times" % (obs.name, len(obs.fires)))
     # ---- directories
@@ -1268,6 +1275,8 @@ def configs():
         "ask_at_start": st.sampled_from([True, True, False]),
         # the temp area (tempfile.gettempdir()) is reached through a symlink
         "tmp_symlink": st.sampled_from([False, False, True]),
+        # Tor writes an event to the newest subscribed connection first instead of the oldest
+        "emit_reverse": st.booleans(),
     })
 
 
@@ -1564,6 +1573,12 @@ RETRY_SCENARIOS = {
     # a first control connection that got as far as an acknowledged TAKEOWNERSHIP, then the attempt fails
     # and the second listener line opens connection #2, which is the one launch() hands out
     "retry-after-resetconf-rejected": (_cfg(stdout=1), [
+        [["line"], ["conn", "ok"], ["own", "ack", 0], ["own", "rej", 0], REST,
+         ["conn", "ok"], ["own", "ack", 0], ["own", "ack", 0]],
+        [TO_100],
+        [["exit", "code", 1]]]),
+    # the same, Tor writing the event to the newest connection first: the deciding report comes over #2
+    "retry-after-resetconf-rejected-newest-first": (_cfg(stdout=1, emit_reverse=True), [
         [["line"], ["conn", "ok"], ["own", "ack", 0], ["own", "rej", 0], REST,
          ["conn", "ok"], ["own", "ack", 0], ["own", "ack", 0]],
         [TO_100],
